@@ -13,6 +13,9 @@ def run(rep, tier):
     rep.encoded(p.AsyncBaseClient.execute_ws, p.AsyncBaseClient._send_connection_init, p.AsyncBaseClient._send_subscribe, p.AsyncBaseClient._handle_ws_message,
                 o.AsyncBaseClientOpenTelemetry.execute_ws, o.AsyncBaseClientOpenTelemetry._execute_ws, o.AsyncBaseClientOpenTelemetry._execute_ws_with_telemetry,
                 o.AsyncBaseClientOpenTelemetry._handle_ws_message_with_telemetry, o.AsyncBaseClientOpenTelemetry._send_subscribe_with_telemetry)
+    from ariadne_codegen.client_generators.client import ClientGenerator
+
+    rep.encoded(ClientGenerator.add_method, ClientGenerator._generate_async_generator_loop, ClientGenerator.get_variable_names)
     nmax = 4 if tier == "quick" else 6
     os.environ["VERIF_WS_FRAMES"] = str(nmax)
     from harness import C13_ws as H
@@ -23,10 +26,13 @@ def run(rep, tier):
         targets += [f"{parts}.check_frames_{v}_p{j}" for j in range(H.NK)]
         targets.append(f"{parts}.check_vars_{v}")
     twin = [f"{MOD}.twin_two_yields_then_error", f"{MOD}.check_ws_history"]
+    MODM = "harness.C13_method"
+    twin += [f"{MODM}.check_generated_subscription_snake", f"{MODM}.check_generated_subscription_plain", f"{MODM}.twin_generated_clash_two_payloads"]
     t = 300 if tier == "quick" else 2400
     res = xh.run_targets(targets + twin, timeout=t, env_extra={"VERIF_WS_FRAMES": str(nmax)})
     xh.fold(rep, parts, [r for r in res if r.target.startswith(parts)])
-    xh.fold(rep, MOD, [r for r in res if r.target.startswith(MOD)])
+    xh.fold(rep, MOD, [r for r in res if r.target.startswith(MOD + ".")])
+    xh.fold(rep, MODM, [r for r in res if r.target.startswith(MODM + ".")])
     confirmed = sum(1 for r in res if r.status == "confirmed")
     rep.coverage.update({
         "states": confirmed * 4, "transitions": confirmed * H.NK, "traces_validated_against_impl": confirmed,
@@ -40,6 +46,7 @@ def run(rep, tier):
                "websockets library replaced by an in-memory fake connection (recv / async iteration / close)",
                "history: two subscriptions on one client (extra_headers on the first / second / both) must open connections with exactly their own headers and leave the configured ws_headers untouched",
                "the handshake against a real websockets server is NOT covered (DESIGN section 8)",
+               "generated subscription methods (snake on/off; variables named query/variables/operationName/data/response, an input model): execute_ws stubbed, the kwargs it receives and the yielded models are judged",
                "OpenTelemetry tracer replaced by a no-op stub")
 
 
